@@ -503,10 +503,19 @@ impl<K, V> TreeBin<K, V> {
                     return element;
                 }
                 element = element_deref.node.next.load(Ordering::SeqCst, guard);
-            } else if bin_deref
-                .lock_state
-                .compare_exchange(s, s + READER, Ordering::SeqCst, Ordering::Relaxed)
-                .is_ok()
+            } else if {
+                #[cfg(flurry_verif)]
+                crate::verif::word(
+                    crate::verif::Kind::Cas,
+                    crate::verif::Cell::LockState,
+                    &bin_deref.lock_state as *const _ as usize,
+                    Ordering::SeqCst,
+                );
+                bin_deref
+                    .lock_state
+                    .compare_exchange(s, s + READER, Ordering::SeqCst, Ordering::Relaxed)
+            }
+            .is_ok()
             {
                 // the current lock state indicates no waiter or writer and we
                 // acquired a read lock
